@@ -67,7 +67,7 @@ PROPS = {
                 slices=['parse_tok', 'parse_rand', 'lex_chars', 'session_cache'], monitors=['c06'],
                 pending=[]),
     'C07': dict(obligations=lambda: P('SqProps.C07') + TIE_FN + TIE_CONST,
-                slices=['prog', 'ops'], monitors=[],
+                slices=['prog', 'ops', 'alias', 'session_cache'], monitors=[],
                 pending=['a denotational (big-step) reference semantics defined independently of the machine and proved equal to it (the frame lemma evaluation_is_compositional and the big-step theorems of C07 / C09 are the compositional half)']),
     'C08': dict(obligations=lambda: P('SqProps.C08') + T('SqTie.LexRules', 'lexrules_tie'),
                 slices=['num'], monitors=['c08'],
